@@ -43,7 +43,7 @@ ASSUMPTIONS = [
 EXHAUSTIVE = {"quick": False, "thorough": False}
 # class 1 is only computed when the source registers Decimal with `float` again (the defect repaired by /repo 5683186,
 # listed `fixed:`): a revert is therefore reported as VIOLATION
-FINDING_CLASSES = {1: "decimal-via-float"}
+FINDING_CLASSES = {1: "decimal-via-float", 2: "string-type-key-ignores-flags"}
 
 OPS = [">", ">=", "<", "<=", "==", "!="]
 OPNAMES = {"gt": "OpGt", "ge": "OpGe", "lt": "OpLt", "le": "OpLe", "eq": "OpEq", "ne": "OpNe"}
@@ -107,6 +107,28 @@ def translate_operators(tree):
 
 
 # --- regexes: sre parse tree -> Lib/C20Regex.rx ---------------------------------------------------
+# Flags of a compiled pattern are resolved here: VERBOSE by the sre parser (layout and comments are gone from the
+# tree), DOTALL (`.` = any character), IGNORECASE (literals and class ranges closed under ASCII case; non-ASCII
+# pattern characters fail closed), MULTILINE (a final `$` holds before any newline: p_multi). Scoped inline flags,
+# ASCII/LOCALE and anchors elsewhere than at the two ends fail closed.
+_RX = {"icase": False, "dotall": False}
+FLAG_BITS = {"I": 2, "M": 8, "S": 16, "X": 64}
+
+
+def _close_case(ranges):
+    out = list(ranges)
+    for lo, hi in ranges:
+        if hi >= 128:
+            raise TieBroken("IGNORECASE with a non-ASCII pattern character is not modelled")
+        a, b = max(lo, 65), min(hi, 90)
+        if a <= b:
+            out.append((a + 32, b + 32))
+        a, b = max(lo, 97), min(hi, 122)
+        if a <= b:
+            out.append((a - 32, b - 32))
+    return out
+
+
 def _cls_items(items):
     """-> (negated, [(lo, hi)])"""
     import re._constants as C  # type: ignore
@@ -127,6 +149,8 @@ def _cls_items(items):
 
 
 def _g_cls(neg, ranges):
+    if _RX["icase"]:
+        ranges = _close_case(ranges)
     return "(RCls %s %s)" % (g_list(["(%s, %s)" % (g_N(a), g_N(b)) for a, b in ranges], "(N * N)"), g_bool(neg))
 
 
@@ -147,7 +171,7 @@ def _rx_node(op, av):
     if op is C.NOT_LITERAL:
         return _g_cls(True, [(av, av)])
     if op is C.ANY:
-        return _g_cls(True, [(10, 10)])
+        return "(RCls %s true)" % g_list([], "(N * N)") if _RX["dotall"] else _g_cls(True, [(10, 10)])
     if op is C.IN:
         return _g_cls(*_cls_items(av))
     if op is C.MAX_REPEAT:
@@ -175,23 +199,36 @@ def _rx_node(op, av):
     raise TieBroken("regex construct not supported: %s" % (op,))
 
 
-def translate_regex(pattern):
-    """pattern -> Gallina `pat` ({| p_body; p_end |}); `^` at the start is implied by re.match,
-    `$` only at the very end. Anything else fails closed."""
+def translate_regex(pattern, flags=""):
+    """pattern (+ flag letters of a compiled pattern, from I M S X) -> Gallina `pat` ({| p_body; p_end; p_multi |});
+    `^` at the start is implied by re.match, `$` only at the very end. Anything else fails closed."""
     import re._constants as C  # type: ignore
     import re._parser as P  # type: ignore
 
+    bits = 0
+    for f in flags:
+        if f not in FLAG_BITS:
+            raise TieBroken("regex flag not modelled: " + f)
+        bits |= FLAG_BITS[f]
     try:
-        tree = list(P.parse(pattern, 0))
+        parsed = P.parse(pattern, bits)
+        tree = list(parsed)
+        bits = parsed.state.flags  # global inline flags such as (?i) included
     except Exception as e:
         raise TieBroken("regex does not parse: %r: %s" % (pattern, e))
+    if bits & ~(2 | 8 | 16 | 64 | 32):  # anything but I M S X and the default UNICODE
+        raise TieBroken("regex flags not modelled: %#x" % bits)
     if tree and tree[0][0] is C.AT and tree[0][1] is C.AT_BEGINNING:
         tree = tree[1:]
     end = False
     if tree and tree[-1][0] is C.AT and tree[-1][1] is C.AT_END:
         end, tree = True, tree[:-1]
-    body = _rx_seq([_rx_node(*x) for x in tree])
-    return "{| p_body := %s; p_end := %s |}" % (body, g_bool(end))
+    _RX["icase"], _RX["dotall"] = bool(bits & 2), bool(bits & 16)
+    try:
+        body = _rx_seq([_rx_node(*x) for x in tree])
+    finally:
+        _RX["icase"] = _RX["dotall"] = False
+    return "{| p_body := %s; p_end := %s; p_multi := %s |}" % (body, g_bool(end), g_bool(end and bool(bits & 8)))
 
 
 def _string_constants(tree):
@@ -251,6 +288,27 @@ SER_NAMES = {"str": "SerStr", "float": "SerFloat", "decimal_serializer": "SerDec
              "range_serializer": "SerRange"}
 DES_NAMES = {"str": "DesStr", "decimal_deserializer": "DesDecimal", "timedelta_deserializer": "DesTimedelta",
              "bytes_deserializer": "DesBytes", "bytearray_deserializer": "DesBytearray", "range_deserializer": "DesRange"}
+
+
+def _string_key_has_flags(tree):
+    """register_key of restricted_string_type: (expression, str) -> False, (expression, regex.flags, str) -> True;
+    `expression` must be "matching " + regex.pattern. Anything else fails closed."""
+    fn = [n for n in tree.body if isinstance(n, ast.FunctionDef) and n.name == "restricted_string_type"]
+    if len(fn) != 1:
+        raise TieBroken("restricted_string_type not found")
+    expr = [n for n in ast.walk(fn[0]) if isinstance(n, ast.Assign) and len(n.targets) == 1
+            and isinstance(n.targets[0], ast.Name) and n.targets[0].id == "expression"]
+    if len(expr) != 1 or ast.unparse(expr[0].value) != "'matching ' + regex.pattern":
+        raise TieBroken("restricted_string_type: `expression` is not \"matching \" + regex.pattern")
+    keys = [k.value for n in ast.walk(fn[0]) if isinstance(n, ast.Call) for k in n.keywords if k.arg == "register_key"]
+    if len(keys) != 1:
+        raise TieBroken("restricted_string_type: register_key not found")
+    shape = ast.unparse(keys[0])
+    if shape == "(expression, str)":
+        return False
+    if shape == "(expression, regex.flags, str)":
+        return True
+    raise TieBroken("restricted_string_type: register_key of an unknown shape: " + shape)
 
 
 def translate_registry(tree):
@@ -328,6 +386,7 @@ def translate():
         lines.append("Definition rx_%s : pat := %s." % (name, translate_regex(pats[name])))
     _write_if_changed(os.path.join(gen, "C20Regexes.v"), "\n".join(lines) + "\n")
     rtext, rrows = translate_registry(tree)
+    rtext += "Definition string_key_has_flags : bool := %s.\n" % g_bool(_string_key_has_flags(tree))
     _write_if_changed(os.path.join(gen, "C20Registry.v"), rtext)
     # build the judge on its own first: it does not depend on Proofs/, so the correspondence can still
     # look for a failing input when a proof about the regenerated tables no longer compiles
@@ -577,16 +636,30 @@ def gen_decimal(rng, tier):
              (5, -10), (9765625, -10), (931322574615478515625, -30), (1, 300), (1, -300), (1, 400), (-1, 309), (1, -400), (17976931348623158, 292),
              (9007199254740993, -3), (30000000000000004, -17), (1, -1), (2, -1), (3, -1), (100, -3), (1000, -1), (-5, 3), (5, -324), (17976931348623157, 292),
              (10000000000000001, -16), (1000000000000001, -15), (33, -2), (5, -2), (375, -3), (999999999999999, -3)]
+    # high precision: more significant digits than the default context (28), than a raised and a lowered one
+    high = [(31415926535897932384626433832795, -31), (int("9" * 50), 0), (int("123456789" * 5), -20), (10 ** 28 + 1, 0),
+            (10 ** 28 + 1, -28), (-(10 ** 40 + 7), -45), (int("1" + "0" * 30 + "1"), 5), (12345678, -3), (123456, 0),
+            (1234567, -7), (100000000000000000000000000001, -1), (271828182845904523536028747135266249775724709369995, -50)]
     for _ in range(150 if tier == "quick" else 5000):
         k = rng.random()
-        if k < 0.4:
+        if k < 0.35:
             e = rng.randint(0, 12)
             pairs.append((rng.choice([1, -1]) * rng.randint(1, 4000) * 5 ** e, -e))  # dyadic
-        elif k < 0.7:
+        elif k < 0.6:
             pairs.append((rng.randint(-10 ** 6, 10 ** 6), -rng.randint(0, 8)))
-        else:
+        elif k < 0.8:
             pairs.append((rng.randint(-10 ** 25, 10 ** 25), rng.randint(-30, 10)))
-    return [{"kind": "decimal", "mant": str(m), "exp": e} for m, e in pairs]
+        else:
+            n = rng.randint(26, 70)
+            high.append((rng.choice([1, -1]) * rng.randint(10 ** (n - 1), 10 ** n), rng.randint(-n - 10, 10)))
+    cases = [{"kind": "decimal", "mant": str(m), "exp": e} for m, e in pairs]
+    # the same under other ambient context precisions (getcontext().prec as the program may have set it)
+    for i, (m, e) in enumerate(high):
+        cases.append({"kind": "decimal", "mant": str(m), "exp": e})
+        cases.append({"kind": "decimal", "mant": str(m), "exp": e, "prec": [5, 9, 40][i % 3]})
+    for i, (m, e) in enumerate(pairs[:60]):
+        cases.append({"kind": "decimal", "mant": str(m), "exp": e, "prec": [3, 6, 50][i % 3]})
+    return cases
 
 
 def gen_builtin(rng, tier):
@@ -628,16 +701,68 @@ RSTR_STRINGS = ["", " ", "  ", "a", " a ", "a\n", "\n", "a\nb", "a@b.c", "a@b.c\
                 "abbcd", "ac\n", "x", "x\n", "xx", "x\n\n", "ax", "é", "a@b.é", "abc\n", "abcbcd"]
 
 
+# regexes handed over as COMPILED patterns carrying flags (flag letters as in re: I, M, S, X), with strings whose
+# match depends on the flag; every pattern text is used with one flag set only (the registry key of a restricted
+# string type is the pattern text)
+RSTR_FLAGGED = [
+    (r"^0x[0-9a-f]+$", "I", ["0xbeef", "0XBEEF", "0Xbeef", "0xBEEF\n", "0xg", "x0xbeef", "0XBEEF\n\n", "0X"]),
+    (r"^a.c$", "S", ["abc", "a\nc", "a\nc\n", "ac", "a\n\nc", "A\nc"]),
+    (r"^ [a-z]+ - \d+ $  # word-number", "X", ["abc-12", "abc - 12", " abc-12", "abc-12\n", "abc-12  # word-number", "ABC-12", "-12"]),
+    (r"^ok$", "M", ["ok", "ok\n", "ok\nmore", "ok\n\n", "okay", "no\nok", "ok\rx", "OK\nmore"]),
+    (r"^[^a-c]x$", "I", ["dx", "Ax", "ax", "DX", "dX", "\nx", "Cx"]),
+    (r"[A-C]+z", "I", ["abz", "ABZ", "abZ", "dz", "aBcZ!", "z"]),
+    (r"^a.*b$", "MS", ["ab", "a\nb", "a\nb\nc", "a\nc", "a\n\nb\n", "A\nb"]),
+    (r"^a.*b$  # dot and newline", "XS", ["ab", "a\nb", "a\nb\n", "a\nb\n\n", "a b"]),
+    (r"^ [0-9a-f]{2} ( : [0-9a-f]{2} )* $", "IX", ["0A:ff", "0a : ff", "0A:FF\n", "0A:F", "0A:FG", "0a"]),
+    (r"^x[ ]y$", "X", ["x y", "xy", "x  y"]),
+    (r"(?i)^q+$", "", ["q", "QQ", "qQ\n", "qr"]),
+    (r"^line$", "MI", ["LINE", "Line\nnext", "liner", "line\n"]),
+    (r"^é.z$", "S", ["é\nz", "éaz", "e\nz"]),
+]
+
+
+def rstr_compiled(rx):
+    """whether a flag-less pattern text is handed over as a compiled Pattern (a function of the text)"""
+    return sum(map(ord, rx)) % 2 == 0
+
+
+# registry histories: one pattern text registered twice, with flag sets that may differ, under one name or two
+# (every history has its own text: `()` repeated before the end keeps the language and makes the text unique)
+RSTR_HIST = [
+    (r"^0x[0-9a-f]+%s$", ["", "I"], ["0xbeef", "0XBEEF", "0xBEEF\n", "zz"]),
+    (r"^a.c%s$", ["", "S"], ["abc", "a\nc", "ac"]),
+    (r"^ok%s$", ["", "M", "I"], ["ok", "ok\nmore", "OK", "okay"]),
+]
+
+
+def gen_rstrhist(rng, tier):
+    cases, n = [], 0
+    for rx, flagsets, strings in RSTR_HIST:
+        for f1 in flagsets:
+            for f2 in flagsets:
+                for same in (True, False):
+                    n += 1
+                    text = rx % ("()" * n)
+                    for s in strings:
+                        cases.append({"kind": "rstrhist", "regex": text, "flags1": f1, "flags2": f2, "same_name": same,
+                                      "value": pvs(s)})
+    return cases
+
+
 def gen_rstr(rng, tier):
     cases = []
     for rx in RSTR_REGEXES:
+        comp = rstr_compiled(rx)
         for s in RSTR_STRINGS:
-            cases.append({"kind": "rstr", "regex": rx, "value": pvs(s)})
+            cases.append({"kind": "rstr", "regex": rx, "flags": "", "compiled": comp, "value": pvs(s)})
         for v in (pvi(5), {"none": 1}, {"other": "list"}, {"b": True}):
-            cases.append({"kind": "rstr", "regex": rx, "value": v})
+            cases.append({"kind": "rstr", "regex": rx, "flags": "", "compiled": comp, "value": v})
     for name, rx in PREDEFINED_STR.items():
         for s in RSTR_STRINGS:
             cases.append({"kind": "rstr", "predefined": name, "regex": rx, "value": pvs(s)})
+    for rx, flags, strings in RSTR_FLAGGED:
+        for s in strings + (RSTR_STRINGS if tier != "quick" else RSTR_STRINGS[::3]):
+            cases.append({"kind": "rstr", "regex": rx, "flags": flags, "compiled": True, "value": pvs(s)})
     return cases
 
 
@@ -646,6 +771,7 @@ def generate(rng, tier):
     cases += gen_num(rng, tier)
     cases += gen_numparse(rng, tier)
     cases += gen_rstr(rng, tier)
+    cases += gen_rstrhist(rng, tier)
     cases += gen_ranges(rng, tier)
     cases += gen_td(rng, tier)
     cases += gen_secret(rng, tier)
@@ -736,8 +862,14 @@ def term(case, obs):
             return "(CNumParse %s %s %s %s)" % (g_rtype(case), g_pv(obs["loaded"]), g_pv(obs["orig"]), acc)
         if k == "rstr":
             acc = g_opt(g_str(obs["acc"])) if obs["acc"] is not None else "None"
-            return "(CStr %s %s %s %s)" % (translate_regex(case["regex"]), g_pv(case["value"]), acc,
+            return "(CStr %s %s %s %s)" % (translate_regex(case["regex"], case.get("flags", "")), g_pv(case["value"]), acc,
                                           g_bool(obs.get("extras_ok", True)))
+        if k == "rstrhist":
+            acc = g_opt(g_str(obs["acc"])) if obs["acc"] is not None else "None"
+            return "(CStrHist %s %s %s %s %s %s %s %s)" % (translate_regex(case["regex"], case["flags1"]),
+                                                          translate_regex(case["regex"], case["flags2"]),
+                                                          g_str(case["flags1"]), g_str(case["flags2"]),
+                                                          g_bool(case["same_name"]), g_pv(case["value"]), g_bool(obs["created"]), acc)
         if k == "range":
             back = g_opt(g_range(obs["back"])) if obs["back"] is not None else "None"
             return "(CRange %s %s %s %s)" % (g_range((case["start"], case["stop"], case["step"])), g_str(obs["ser"]), back,
@@ -771,7 +903,7 @@ def term(case, obs):
 def nontrivial_key(case, obs):
     if case["kind"] == "num" and "i" in case["value"] and abs(int(case["value"]["i"])) < 3 and len(case["restr"]) < 2:
         return None
-    core = {k: v for k, v in obs.items() if k in ("acc", "back", "ser", "loaded", "dbl", "all_equal", "leaked", "chan_ok")}
+    core = {k: v for k, v in obs.items() if k in ("acc", "back", "ser", "loaded", "dbl", "all_equal", "leaked", "chan_ok", "created")}
     return json.dumps([case, core], sort_keys=True)
 
 
@@ -779,6 +911,9 @@ def category(case, obs):
     k = case["kind"]
     if "harness_error" in obs or "crash" in obs:
         return k + "/crash"
+    if k == "rstrhist":
+        return "rstrhist/%s/%s" % ("same-name" if case["same_name"] else "other-name",
+                                   "refused" if not obs.get("created") else "accepted" if obs.get("acc") is not None else "rejected")
     if k in ("num", "numparse", "rstr"):
         extra = "" if k == "rstr" else "/%s/%d cmp/%s" % (case["base"], len(case["restr"]), next(iter(case["value"])))
         return "%s%s/%s" % (k if k != "numparse" else "numparse-" + case["channel"], extra,
@@ -804,7 +939,7 @@ def shrink(case):
         for i in range(len(case["restr"])):
             r2 = case["restr"][:i] + case["restr"][i + 1:]
             yield dict(case, restr=r2, after=after_for(case["base"], case["join"], [(s_, r) for s_, r in r2]))
-    if k in ("num", "numparse", "rstr", "rangedes", "tddes") and "s" in case["value"]:
+    if k in ("num", "numparse", "rstr", "rstrhist", "rangedes", "tddes") and "s" in case["value"]:
         s = case["value"]["s"]
         for i in range(len(s)):
             yield dict(case, value={"s": s[:i] + s[i + 1:]})
